@@ -218,7 +218,7 @@ def load_findings():
 # ---------------------------------------------------------------------------------------------
 # one shard of one sub-check
 
-class _Stop(Exception):
+class _Stop(BaseException):   # not an Exception: hypothesis lets it through at once instead of treating the time box as a failing example
     pass
 
 
